@@ -179,13 +179,13 @@ def monitor(scen, out):
     return hits
 
 # ---------------------------------------------------------------- run
-def run_batch(ctx, scens, label, correspond=True):
+def run_batch(ctx, scens, label, correspond=True, monitored=True):
     script = [l for s in scens for l in s["lines"]]
     if correspond:
         impl, _ = ctx.correspond("synctest", script, "debug", label=label)
     else:
         impl = ctx.run_impl("synctest", script)
-    st = ctx.cov["monitors"].setdefault(label, {"scenarios": 0, "rejected": 0, "frames": 0, "mismatches": 0, "invalid": 0, "detect_at": {}})
+    st = ctx.cov["monitors"].setdefault(label, {"scenarios": 0, "rejected": 0, "frames": 0, "mismatches": 0, "invalid": 0, "panics": 0, "detect_at": {}})
     i = 0
     for s in scens:
         out = impl[i:i + len(s["lines"])]
@@ -194,6 +194,7 @@ def run_batch(ctx, scens, label, correspond=True):
         st["rejected"] += out[0] == "rejected"
         st["frames"] += sum(1 for r in out if r.startswith("req "))
         st["invalid"] += sum(1 for r in out if r.startswith("invalid"))
+        st["panics"] += sum(1 for r in out if r == "panic")
         mm = [r for r in out if r.startswith("mismatch")]
         if mm:
             st["mismatches"] += 1
@@ -202,7 +203,7 @@ def run_batch(ctx, scens, label, correspond=True):
                 cur = int(re.match(r"mismatch cur=(-?\d+)", mm[0]).group(1))
                 key = "cur-F=%d" % (cur - m["noise"][0])
                 st["detect_at"][key] = st["detect_at"].get(key, 0) + 1
-        hs = monitor(s, out)
+        hs = monitor(s, out) if monitored else []
         m = s["meta"]
         ctx.count(sample={"cfg": s["lines"][0], "noise": m["noise"], "last": out[-1][:120]} if (st["scenarios"] % 97 == 1) else None,
                   nontrivial_key=(m["np"], m["w"], m["d"], m["k"], tuple(m["noise"]), m["tag"]) if out[0] == "ok" else None)
@@ -220,7 +221,7 @@ def run(ctx):
     dist = ctx.cov["input_distribution"]
     # ---- family 1: ALL configurations, deterministic game ----
     scens = []
-    reps = 3 if ctx.thorough else 1
+    reps = 10 if ctx.thorough else 1
     for np_ in range(0, 5):
         for w in range(0, 10):
             for d in range(0, w + 1):
@@ -234,12 +235,21 @@ def run(ctx):
     # a few long runs (the input ring wraps at 128) and large delays (up to the bound of the theorem)
     longs = []
     qlen = ctx.consts.get("INPUT_QUEUE_LENGTH", 128)
-    for _ in range(24 if ctx.thorough else 6):
+    for _ in range(80 if ctx.thorough else 6):
         w = rng.randrange(1, 10)
         d = rng.randrange(0, w)
         longs.append(gen_scenario(rng, rng.randrange(1, 4), w, d, rng.choice([0, 1, 7, 30, qlen - d - 2]), rng.randrange(280, 420), tag="long"))
     dist["deterministic_long_runs(280-420 frames, delays up to INPUT_QUEUE_LENGTH-dist-2)"] = len(longs)
     run_batch(ctx, longs, "deterministic_long")
+    # delays beyond the bound of the theorem: the input queue overflows and advance_frame panics; model and
+    # code must agree on when (correspondence only: the property is claimed within the bound)
+    beyond = []
+    for _ in range(12 if ctx.thorough else 4):
+        w = rng.randrange(1, 10)
+        d = rng.randrange(0, w)
+        beyond.append(gen_scenario(rng, rng.randrange(1, 3), w, d, qlen - d - 2 + rng.choice([1, 1, 2, 5, 40]), 12, faults=False, tag="beyond"))
+    dist["delay_beyond_bound(correspondence only)"] = len(beyond)
+    run_batch(ctx, beyond, "delay_beyond_bound", monitored=False)
     # ---- family 2: one noisy frame ----
     noisy = []
     pairs = [(w, d) for w in range(1, 10) for d in range(0, w)]
@@ -247,7 +257,7 @@ def run(ctx):
         for (w, d) in pairs:
             for F in range(0, 41):
                 noisy.append(gen_scenario(rng, 2, w, d, rng.randrange(0, 5), F + d + 6, noise=(F,), faults=False, tag="noise"))
-        for _ in range(1500):
+        for _ in range(12000):
             w, d = rng.choice(pairs)
             F = rng.randrange(0, 60)
             noisy.append(gen_scenario(rng, rng.randrange(1, 5), w, d, rng.randrange(0, 5), F + d + 8, noise=(F,), faults=True, tag="noise-faults"))
